@@ -37,6 +37,11 @@ def cases(tier, seed, args):
                         ci=float(10.0 ** rng.integers(-6, 7)) if i % 3 else 1.0,
                         cn=float(10.0 ** rng.integers(-6, 7)) if i % 3 == 1 else None,
                         zero_noise=bool(i % 17 == 0)))
+    for i in range(12 if q else 80):
+        # very high ratios between images and noise (SDR, SNR of 120 .. 200 dB): identities must hold to rounding
+        out.append(dict(t='input', K=1 + i % 3, D=int(rng.integers(1, 4)), T=int(rng.choice([16, 40])), seed=int(rng.integers(1 << 30)),
+                        avg_src=False, avg_ch=bool(i % 2), ci=float(10.0 ** rng.integers(6, 10)), cn=float(10.0 ** rng.integers(-3, 1)),
+                        zero_noise=False, loud_first=bool(i % 3 != 0)))
     for i in range(100 if q else 1000):
         K = int(rng.integers(1, 5))
         Kt = int(rng.integers(K, 6))
@@ -148,6 +153,14 @@ def run_case(case):
         D, T = case['D'], case['T']
         X = rng.normal(size=(D, T))
         N = rng.normal(size=(D, T)) * 10.0 ** rng.uniform(-3, 3)
+        lay = ['C', 'strided', 'T', 'C'][case['seed'] % 4]
+        if lay == 'strided':
+            big = np.zeros((D, 2 * T))
+            N_ = big[:, ::2]
+            N_[...] = N
+            N = N_
+        elif lay == 'T':
+            N = np.ascontiguousarray(N.T).T          # a transposed (T, D) buffer
         x0 = enc.digest(X)
         kw = {}
         mode = case.get('current', 'none')
@@ -166,7 +179,7 @@ def run_case(case):
         if exc == '':
             got, exc = _call(sxr_module.get_snr, X, N2)
         return [dict(kind='snr', want=enc.flt(case['snr']), got=enc.flt(got if got is not None else np.nan), exc=exc,
-                     x_same=enc.digest(X) == x0, fp=f'fn=set_snr;inplace={case["inplace"]};current={mode}', key=f'snr:{case["seed"]}')]
+                     x_same=enc.digest(X) == x0, fp=f'fn=set_snr;inplace={case["inplace"]};current={mode};layout={lay}', key=f'snr:{case["seed"]}')]
     if t == 'container':
         K, D, T = 2, 2, 16
         rd = {'false': False, 'true': True, 'prefix': case['prefix']}[case['rd']]
